@@ -4,8 +4,15 @@ import Glom.Model.C18
 
   * "a faithful value": the object reconstructed from the text has the same
     steps (keyword arguments compared as a dict: `normSteps` puts them in key
-    order, which is also the order `repr` prints them in), hence the same repr
-    and the same evaluation; pickling gives the same steps back.
+    order, which is also the order `repr` prints them in; a nested Path without
+    plain segments comes back as the T expression it prints as), hence the same
+    repr and the same evaluation; pickling gives the same steps back.
+  * the domain: `validObj` (what can be built with the public API from literal
+    arguments and nested T / Path objects) whose scalars are expressions
+    (`fitsObj … unbounded`: finite floats; no builtin function inside a `'P'`
+    segment or a slice object).  Inside the domain the limits of `reprlib` are
+    a hypothesis of the theorems (`fitsObj … lim`), discharged for sizes up to
+    `minLimit` by the facts obligation.
   * "an immutable sequence of its steps": `len`, `p[i]`, `p[a:b:c]`,
     `values()`, `items()`, `==`, `startswith`, `Path(p, q)` are the same
     operations on the list of steps (`pySlice`, `pyIndexNat` — Python's own
@@ -13,12 +20,24 @@ import Glom.Model.C18
 -/
 namespace Glom.C18
 
-/-! ### normal form: keyword arguments in key order -/
+/-! ### normal form: keyword arguments in key order, a segment-free Path as a T -/
 
 mutual
   def normArg {L} : Arg L → Arg L
     | .lit v => .lit v
     | .t root steps => .t root (steps.map (fun s => normStep s))
+    | .seq k xs => .seq k (xs.map (fun x => normArg x))
+    | .dict kvs => .dict (kvs.map (fun p => (normArg p.1, normArg p.2)))
+    | .sliceObj a b c => .sliceObj (normArg a) (normArg b) (normArg c)
+    | .path root steps =>
+      -- `Path(T.a)` reprs as `T.a` (DESIGN §6.6): the reconstructed object is the T expression
+      if !steps.isEmpty && steps.all (fun s => !s.isSeg) then .t root (steps.map (fun s => normStep s))
+      else .path root (steps.map (fun s => normStep s))
+    | .bad s => .bad s
+    | .fill => .fill
+    | .deep k => .deep k
+    | .dictMore kvs => .dictMore kvs
+    | .cut a => .cut a
   termination_by a => sizeOf a
   decreasing_by all_goals c18_dec
   def normItem {L} : Item L → Item L
@@ -35,7 +54,7 @@ mutual
     | .items is => .items (is.map (fun i => normItem i))
     | .call args kwargs =>
       .call (args.map (fun a => normArg a)) (sortKw (kwargs.map (fun p => (p.1, normArg p.2))))
-    | .seg v => .seg v
+    | .seg a => .seg (normArg a)
     | .star => .star
     | .starstar => .starstar
   termination_by s => sizeOf s
@@ -46,15 +65,48 @@ def normSteps {L} (steps : List (Step L)) : List (Step L) := steps.map normStep
 
 /-! ### the expressions the property is about -/
 
+/-- `_t_child` accepts only attribute / item / plain-segment steps on an `A` path -/
+def Step.okOnA {L} : Step L → Bool
+  | .call _ _ | .star | .starstar => false
+  | _ => true
+
+/-- the paths that can be built: an `A`-rooted one has no call / wildcard step
+    (`_t_child` raises BadSpec: 'operation not allowed on A assignment path') -/
+def aOk {L} (root : String) (steps : List (Step L)) : Bool :=
+  root != "A" || steps.all Step.okOnA
+
+/-- an index of exact type tuple is a step of its own kind (`items`), an index that is a
+    slice object is `Item.slice` -/
+def Arg.isIndexAtom {L} : Arg L → Bool
+  | .seq .tuple _ => false
+  | .sliceObj _ _ _ => false
+  | _ => true
+
+/-- `Path.__init__` flattens T and Path parts: a `'P'` segment is neither -/
+def Arg.isSegArg {L} : Arg L → Bool
+  | .t _ _ => false
+  | .path _ _ => false
+  | _ => true
+
 mutual
-  /-- literal or nested T arguments; a nested T has no `'P'` step; no keyword twice -/
+  /-- scalars, containers, slice objects, nested T expressions (no `'P'` step) and nested Paths;
+      no keyword twice in a call; none of the forms a `reprlib` limit leaves -/
   def validArg {L} : Arg L → Bool
     | .lit _ => true
     | .t _ steps => (steps.map (fun s => !s.isSeg && validStep s)).all id
+    | .seq k xs => k != .dict && (xs.map (fun x => validArg x)).all id
+    | .dict kvs => (kvs.map (fun p => validArg p.1 && validArg p.2)).all id
+    | .sliceObj a b c => validArg a && validArg b && validArg c
+    | .path root steps => (steps.map (fun s => validStep s)).all id && aOk root steps
+    | .bad _ => false
+    | .fill => false
+    | .deep _ => false
+    | .dictMore _ => false
+    | .cut _ => false
   termination_by a => sizeOf a
   decreasing_by all_goals c18_dec
   def validItem {L} : Item L → Bool
-    | .one a => validArg a
+    | .one a => validArg a && a.isIndexAtom
     | .slice a b c =>
       (match a with | none => true | some x => validArg x) &&
       (match b with | none => true | some x => validArg x) &&
@@ -68,7 +120,7 @@ mutual
     | .call args kwargs =>
       (args.map (fun a => validArg a)).all id && (kwargs.map (fun p => validArg p.2)).all id &&
       decide ((kwargs.map (fun p => p.1)).Nodup)
-    | .seg _ => true
+    | .seg a => validArg a && a.isSegArg
     | .star => true
     | .starstar => true
   termination_by s => sizeOf s
@@ -81,11 +133,190 @@ def validT {L} (steps : List (Step L)) : Bool := steps.all (fun s => !s.isSeg &&
 /-- the steps of a Path: valid steps, `'P'` steps allowed -/
 def validP {L} (steps : List (Step L)) : Bool := steps.all (fun s => validStep s)
 
+/-! ### inside the limits of `reprlib` -/
+
+/-- the text of an argument as `repr_instance` measures it -/
+def argWidth {L} (S : ScalarOps L) (F : FmtFacts) (lim : Limits) (a : Arg L) : Nat :=
+  (renderToks S.text lim.maxother (fmtArg F a)).length
+
+def fitsLit {L} (S : ScalarOps L) (lim : Limits) (plain : Bool) (v : L) : Bool :=
+  if plain then S.plain v && S.evaluable v else S.fits lim v && S.evaluable v
+
+mutual
+  /-- `truncArg` loses nothing: every scalar is printed in full and is an expression, every
+      container has at most as many elements as its limit and is not deeper than `maxlevel`,
+      every nested instance is at most `maxother` characters wide -/
+  def fitsArg {L} (S : ScalarOps L) (F : FmtFacts) (lim : Limits) (plain : Bool) (level : Nat) :
+      Arg L → Bool
+    | .lit v => fitsLit S lim plain v
+    | .t root steps =>
+      (steps.map (fun s => fitsStep S F lim s)).all id &&
+      (plain || argWidth S F lim (.t root steps) ≤ lim.maxother)
+    | .path root steps =>
+      (steps.map (fun s => fitsStep S F lim s)).all id &&
+      (plain || argWidth S F lim (.path root steps) ≤ lim.maxother)
+    | .seq k xs =>
+      if plain then (xs.map (fun x => fitsArg S F lim true level x)).all id
+      else !(level == 0 && !xs.isEmpty) && xs.length ≤ lim.maxOf k &&
+        (xs.map (fun x => fitsArg S F lim false (level - 1) x)).all id
+    | .dict kvs =>
+      if plain then (kvs.map (fun p => fitsArg S F lim true level p.1 && fitsArg S F lim true level p.2)).all id
+      else kvs.isEmpty || (level != 0 && kvs.length ≤ lim.maxdict &&
+        (kvs.map (fun p => fitsArg S F lim false (level - 1) p.1 &&
+                           fitsArg S F lim false (level - 1) p.2)).all id)
+    | .sliceObj a b c =>
+      fitsArg S F lim true level a && fitsArg S F lim true level b && fitsArg S F lim true level c &&
+      (plain || argWidth S F lim (.sliceObj a b c) ≤ lim.maxother)
+    | .bad _ => true
+    | .fill => true
+    | .deep _ => true
+    | .dictMore _ => true
+    | .cut _ => true
+  termination_by a => sizeOf a
+  decreasing_by all_goals c18_dec
+  def fitsItem {L} (S : ScalarOps L) (F : FmtFacts) (lim : Limits) : Item L → Bool
+    | .one a => fitsArg S F lim false lim.maxlevel a
+    | .slice a b c =>
+      (match a with | none => true | some x => fitsArg S F lim false lim.maxlevel x) &&
+      (match b with | none => true | some x => fitsArg S F lim false lim.maxlevel x) &&
+      (match c with | none => true | some x => fitsArg S F lim false lim.maxlevel x)
+  termination_by i => sizeOf i
+  decreasing_by all_goals c18_dec
+  def fitsStep {L} (S : ScalarOps L) (F : FmtFacts) (lim : Limits) : Step L → Bool
+    | .attr _ => true
+    | .item i => fitsItem S F lim i
+    | .items is => (is.map (fun i => fitsItem S F lim i)).all id
+    | .call args kwargs =>
+      (args.map (fun a => fitsArg S F lim false lim.maxlevel a)).all id &&
+      (kwargs.map (fun p => fitsArg S F lim false lim.maxlevel p.2)).all id
+    | .seg a => fitsArg S F lim true 0 a
+    | .star => true
+    | .starstar => true
+  termination_by s => sizeOf s
+  decreasing_by all_goals c18_dec
+end
+
+def fitsSteps {L} (S : ScalarOps L) (F : FmtFacts) (lim : Limits) (steps : List (Step L)) : Bool :=
+  steps.all (fun s => fitsStep S F lim s)
+
+/-- limits no Python object reaches: only "every scalar is an expression" is left of `fitsArg` -/
+def unbounded : Limits := Limits.uniform (2 ^ 64)
+
+/-! ### the scalars of Python, concretely -/
+
+/-- ints; strings and bytes by their code points / byte values; a finite float by its `repr`
+    text (the shortest-digits algorithm is CPython's) and its `float.hex()`; the floats that
+    have no literal; `None`, `True`, `False`, `Ellipsis`; a builtin function or class by its
+    name and its builtin repr (`<built-in function len>`) -/
+inductive Scalar where
+  | int (i : Int)
+  | str (cs : List Nat)
+  | bytes (bs : List Nat)
+  | float (text : String) (hex : String)
+  | floatBad (text : String)          -- `inf`, `-inf`, `nan`
+  | none
+  | bool (b : Bool)
+  | ellipsis
+  | builtin (name : String) (raw : String)
+  deriving DecidableEq, Repr
+
+def hexDigits (width n : Nat) : String :=
+  let ds := Nat.toDigits 16 n
+  String.ofList (List.replicate (width - ds.length) '0' ++ ds)
+
+/-- `str.isprintable` for one code point, exact below U+0100; above, every code point the
+    harness generates is checked to be printable -/
+def pyPrintable (c : Nat) : Bool :=
+  if c < 32 then false else if c < 127 then true else if c ≤ 160 then false else c != 173
+
+/-- the quote `repr` chooses: `"` only if the text has a `'` and no `"` -/
+def pyQuote (cs : List Nat) : Nat := if cs.contains 39 && !cs.contains 34 then 34 else 39
+
+def chr (c : Nat) : String := String.singleton (Char.ofNat c)
+
+def pyStrEsc (q c : Nat) : String :=
+  if c == q || c == 92 then "\\" ++ chr c
+  else if c == 9 then "\\t" else if c == 10 then "\\n" else if c == 13 then "\\r"
+  else if c < 32 || c == 127 then "\\x" ++ hexDigits 2 c
+  else if c < 127 then chr c
+  else if pyPrintable c then chr c
+  else if c ≤ 255 then "\\x" ++ hexDigits 2 c
+  else if c ≤ 65535 then "\\u" ++ hexDigits 4 c
+  else "\\U" ++ hexDigits 8 c
+
+/-- `repr` of a str -/
+def pyStrRepr (cs : List Nat) : String :=
+  let q := pyQuote cs
+  chr q ++ String.join (cs.map (pyStrEsc q)) ++ chr q
+
+def pyBytesEsc (q c : Nat) : String :=
+  if c == q || c == 92 then "\\" ++ chr c
+  else if c == 9 then "\\t" else if c == 10 then "\\n" else if c == 13 then "\\r"
+  else if c < 32 || c ≥ 127 then "\\x" ++ hexDigits 2 c
+  else chr c
+
+/-- `repr` of a bytes object -/
+def pyBytesRepr (bs : List Nat) : String :=
+  let q := pyQuote bs
+  "b" ++ chr q ++ String.join (bs.map (pyBytesEsc q)) ++ chr q
+
+def Scalar.text : Scalar → String
+  | .int i => toString i
+  | .str cs => pyStrRepr cs
+  | .bytes bs => pyBytesRepr bs
+  | .float t _ => t
+  | .floatBad t => t
+  | .none => "None"
+  | .bool b => if b then "True" else "False"
+  | .ellipsis => "Ellipsis"
+  | .builtin n _ => n
+
+/-- the builtin `repr` -/
+def Scalar.plainText : Scalar → String
+  | .builtin _ raw => raw
+  | v => v.text
+
+/-- `repr_int` (maxlong), `repr_str` (maxstring: `repr(x[:maxstring])` must not be longer than
+    maxstring), `repr_instance` (maxother); the `<…>` text of a builtin is replaced by its name
+    whatever its length, unless the cut removes the leading `<` -/
+def Scalar.fits (lim : Limits) : Scalar → Bool
+  | .int i => (toString i).length ≤ lim.maxlong
+  | .str cs => (pyStrRepr (cs.take lim.maxstring)).length ≤ lim.maxstring
+  | .builtin _ raw => raw.length ≤ lim.maxother || (lim.maxother - 3) / 2 ≥ 1
+  | v => v.text.length ≤ lim.maxother
+
+def Scalar.cutText (lim : Limits) : Scalar → String
+  | .int i => cutStr lim.maxlong (toString i)
+  | .str cs =>
+    let i := (lim.maxstring - 3) / 2
+    let j := lim.maxstring - 3 - i
+    let s := pyStrRepr (cs.take i ++ cs.drop (cs.length - j))
+    String.ofList (s.toList.take i) ++ "..." ++ String.ofList (s.toList.drop (s.length - j))
+  | .builtin _ raw => cutStr lim.maxother raw
+  | v => cutStr lim.maxother v.text
+
+/-- the scalars of Python -/
+def pyScalar : ScalarOps Scalar where
+  text := Scalar.text
+  fits := Scalar.fits
+  cutText := Scalar.cutText
+  evaluable := fun v => match v with | .floatBad _ => false | _ => true
+  plain := fun v => match v with | .builtin _ _ => false | _ => true
+  plainText := Scalar.plainText
+
 /-! ### well-formedness of the extracted facts -/
+
+/-- read the limits the model uses out of the attribute table of the live `_BBRepr` instance -/
+def limitsOf (tbl : List (String × Nat)) : Limits :=
+  let g := fun (n : String) => (tbl.lookup n).getD 0
+  { maxlevel := g "maxlevel", maxtuple := g "maxtuple", maxlist := g "maxlist", maxdict := g "maxdict",
+    maxset := g "maxset", maxfrozenset := g "maxfrozenset", maxstring := g "maxstring",
+    maxlong := g "maxlong", maxother := g "maxother" }
 
 /-- the three switches of `_format_t` (commit 0224102) are on; `_format_path` is given the root
     (commit 2a7aadd); the pickling tables name T, S, A;
-    `Path.__getitem__` slices the tuple of steps -/
+    `Path.__getitem__` slices the tuple of steps; the `_BBRepr` instance behind `bbrepr` has
+    every size limit of `reprlib.Repr` raised -/
 structure Facts where
   fmt : FmtFacts
   getstateRoots : List String
@@ -94,7 +325,21 @@ structure Facts where
   lenExpr : String
   valuesExpr : String
   itemsExpr : String
+  limitNames : List String          -- the int attributes of a stock `reprlib.Repr()` of this Python
+  limitTable : List (String × Nat)  -- the int attributes of the instance `bbrepr` is bound to
+  fillvalue : String
+  reprIsReprlib : Bool              -- `bbrepr` wraps the instance's `reprlib.Repr.repr`, `repr1` defers to `Repr.repr1`
   deriving Repr
+
+def Facts.lim (F : Facts) : Limits := limitsOf F.limitTable
+
+/-- the size up to which the round trip is proved whatever the instance's limits are -/
+def minLimit : Nat := 1024
+
+/-- the limit attributes the model reads -/
+def modelLimitNames : List String :=
+  ["maxlevel", "maxtuple", "maxlist", "maxdict", "maxset", "maxfrozenset", "maxstring", "maxlong",
+   "maxother"]
 
 def WF (F : Facts) : Bool :=
   F.fmt.dunderGuard && F.fmt.tupleEmptyParen && F.fmt.singletonComma && F.fmt.pathRootAware &&
@@ -102,32 +347,12 @@ def WF (F : Facts) : Bool :=
   F.getitemViaSteps &&
   F.lenExpr == "(len(self.path_t.__ops__) - 1) // 2" &&
   F.valuesExpr == "cur_t_path[2::2]" &&
-  F.itemsExpr == "tuple(zip(cur_t_path[1::2], cur_t_path[2::2]))"
-
-/-! ### rendering token trees as text (to compare with the real `repr`) -/
-
-mutual
-  def renderTok : Tok String → String
-    | .root r => r
-    | .name n => n
-    | .dot n => "." ++ String.ofList n
-    | .lit v => v
-    | .str s => "'" ++ String.ofList s ++ "'"      -- attribute names are identifiers: no escapes
-    | .kw k => k ++ "="
-    | .comma => ", "
-    | .colon => ":"
-    | .br ch => "[" ++ renderToks ch ++ "]"
-    | .par ch => "(" ++ renderToks ch ++ ")"
-  termination_by t => sizeOf t
-  decreasing_by all_goals c18_dec
-  /-- a trailing comma is printed without the space (`index += ','`) -/
-  def renderToks : List (Tok String) → String
-    | [] => ""
-    | [.comma] => ","
-    | t :: r => renderTok t ++ renderToks r
-  termination_by ts => sizeOf ts
-  decreasing_by all_goals c18_dec
-end
+  F.itemsExpr == "tuple(zip(cur_t_path[1::2], cur_t_path[2::2]))" &&
+  -- every limit this Python's reprlib has — in particular those the model reads — is raised
+  (F.limitNames ++ modelLimitNames).all (fun n => match F.limitTable.lookup n with
+    | some v => decide (minLimit ≤ v)
+    | none => false) &&
+  F.fillvalue == "..." && F.reprIsReprlib
 
 /-! ### observations and checkers -/
 
@@ -195,32 +420,25 @@ def pickleObj {L} (F : Facts) : Obj L → Option (Obj L)
   | .pobj r s => ((getstate F.getstateRoots r s).bind (setstate F.setstateRoots)).map
       (fun rs => Obj.pobj rs.1 rs.2)
 
-def observeRepr {L} [BEq (Step L)] (F : Facts) (render : List (Tok L) → String) (x : Obj L) :
-    ReprObs L :=
-  let ev := parseObj (reprObj F.fmt x)
-  { text := render (reprObj F.fmt x)
+def observeRepr {L} [BEq (Step L)] (S : ScalarOps L) (F : Facts) (x : Obj L) : ReprObs L :=
+  let render := renderToks S.text F.lim.maxother
+  let ev := parseObj (reprLim S F.fmt F.lim x)
+  { text := render (reprLim S F.fmt F.lim x)
     evalOk := ev
-    text2 := ev.map (fun y => render (reprObj F.fmt y))
+    text2 := ev.map (fun y => render (reprLim S F.fmt F.lim y))
     pickled := pickleObj F x
     -- the model has no notion of evaluation beyond the steps: same steps, same evaluation
     sameEval := match ev with
       | some y => y.root == x.root && y.steps == normSteps x.steps
       | none => false }
 
-/-- `_t_child` accepts only attribute / item / plain-segment steps on an `A` path -/
-def Step.okOnA {L} : Step L → Bool
-  | .call _ _ | .star | .starstar => false
-  | _ => true
-
-/-- the paths that can be built: an `A`-rooted one has no call / wildcard step
-    (`_t_child` raises BadSpec: 'operation not allowed on A assignment path') -/
-def aOk {L} (root : String) (steps : List (Step L)) : Bool :=
-  root != "A" || steps.all Step.okOnA
-
 /-- the objects the property is about: T expressions and Paths rooted at T, S or A -/
 def validObj {L} : Obj L → Bool
   | .tobj r s => ["T", "S", "A"].contains r && validT s
   | .pobj r s => ["T", "S", "A"].contains r && validP s && aOk r s
+
+def fitsObj {L} (S : ScalarOps L) (F : FmtFacts) (lim : Limits) (x : Obj L) : Bool :=
+  fitsSteps S F lim x.steps
 
 /-! ### `glom(t, Path(p, q))` against `glom(glom(t, p), q)` -/
 
